@@ -47,6 +47,7 @@ LEVEL_NOTE = (
     "evidence as krylov_calls=0)."
 )
 
+TINY = float(np.finfo(float).tiny)
 EPS = float(np.finfo(float).eps)
 
 
@@ -112,7 +113,9 @@ def residual_check(res, r, terms, c, tag=""):
     for i, (b, a, u, dt) in enumerate(terms):
         k = c * dt * a
         R = u[1:] - b[1:] + k[1:] * lap_rows(u)
-        tol = 200 * EPS * (1 + 4 * float(np.max(k))) * float(np.max(np.abs(b))) + 1e-300
+        # below the smallest normal number (fully relaxed ideal runs reach 1e-320) values carry an absolute rounding
+        # error of tiny * eps instead of a relative one
+        tol = 200 * EPS * (1 + 4 * float(np.max(k))) * max(float(np.max(np.abs(b))), TINY)
         ratio = float(np.max(np.abs(R))) / tol
         if not ratio <= worst:  # also NaN
             worst, worst_step = ratio, i
@@ -121,7 +124,7 @@ def residual_check(res, r, terms, c, tag=""):
         k = c * dt * a
         R = u[1:] - b[1:] + k[1:] * lap_rows(u)
         j = int(np.argmax(np.abs(R))) + 1
-        tol = 200 * EPS * (1 + 4 * float(np.max(k))) * float(np.max(np.abs(b)))
+        tol = 200 * EPS * (1 + 4 * float(np.max(k))) * max(float(np.max(np.abs(b))), TINY)
         res.check(
             f"C04/step-residual{tag}",
             float(np.max(np.abs(R))),
